@@ -23,6 +23,11 @@ func (c *ClientChannel) receiveSessionFromServer(ctx context.Context) (*Session,
 		return nil, fmt.Errorf("receive session: %w", err)
 	}
 
+	// The session state cannot move backwards, whatever the server sends
+	if state := c.State(); ses.State.Step() < state.Step() {
+		return nil, fmt.Errorf("receive session: unexpected %v session received in the %v state", ses.State, state)
+	}
+
 	if ses.State == SessionStateEstablished {
 		c.localNode = ses.To
 		c.remoteNode = ses.From
